@@ -7,6 +7,7 @@ import (
 	"go/parser"
 	"go/token"
 	"os"
+	"sort"
 	"strconv"
 	"strings"
 )
@@ -16,8 +17,9 @@ import (
 //	goext framelayout -o out.lean -io <repo>/p2p/v030/v030io.go -mv <repo>/p2p/p2pcommon/messagevalue.go
 //
 // Reads `const msgHeaderLength`, `(*V030ReadWriter).marshalHeader` and `parseHeader` and emits, for
-// each of the two functions, the list of header slots (message field, lo, hi, encoding) in
-// statement order. Recognised statements (anything else is an error: the function left the subset
+// each of the two functions, the list of header slots (message field, lo, hi, encoding), sorted by
+// offset (the statement order of non-overlapping writes / of reads is irrelevant; overlap is refused by the theorem
+// header_layout_ok). Slice bounds may be integer constant expressions. Recognised statements (anything else is an error: the function left the subset
 // and the tie is broken):
 //
 //	marshalHeader:  binary.BigEndian.PutUint32(rw.writeBuf[a:b], <expr containing m.Acc()>)
@@ -38,16 +40,40 @@ type slot struct {
 	enc    string
 }
 
+// intLit evaluates a slice bound: an integer literal, a named integer constant of the file, or a constant expression
+// built from those with + - * and parentheses (`offID+idLen`, `msgHeaderLength-16`): a harmless rewrite of `16`.
 func intLit(e ast.Expr, consts map[string]int) (int, error) {
 	switch x := e.(type) {
 	case *ast.BasicLit:
-		return strconv.Atoi(x.Value)
+		if x.Kind == token.INT {
+			v, err := strconv.ParseInt(x.Value, 0, 64)
+			return int(v), err
+		}
 	case *ast.Ident:
 		if v, ok := consts[x.Name]; ok {
 			return v, nil
 		}
+	case *ast.ParenExpr:
+		return intLit(x.X, consts)
+	case *ast.BinaryExpr:
+		a, err := intLit(x.X, consts)
+		if err != nil {
+			return 0, err
+		}
+		b, err := intLit(x.Y, consts)
+		if err != nil {
+			return 0, err
+		}
+		switch x.Op {
+		case token.ADD:
+			return a + b, nil
+		case token.SUB:
+			return a - b, nil
+		case token.MUL:
+			return a * b, nil
+		}
 	}
-	return 0, fmt.Errorf("slice bound %s is not an integer literal", exprString(e))
+	return 0, fmt.Errorf("slice bound %s is not an integer constant expression", exprString(e))
 }
 
 // sliceOf recognises <base>[lo:hi] and returns base text and bounds.
@@ -110,10 +136,9 @@ func constsOf(af *ast.File) map[string]int {
 			vs := sp.(*ast.ValueSpec)
 			for i, n := range vs.Names {
 				if i < len(vs.Values) {
-					if bl, ok := vs.Values[i].(*ast.BasicLit); ok && bl.Kind == token.INT {
-						if v, err := strconv.Atoi(bl.Value); err == nil {
-							out[n.Name] = v
-						}
+					// integer literals and constant expressions over earlier constants
+					if v, err := intLit(vs.Values[i], out); err == nil {
+						out[n.Name] = v
 					}
 				}
 			}
@@ -430,6 +455,19 @@ func cmdFrameLayout(args []string) error {
 	if err != nil {
 		return err
 	}
+	// canonical order: by offset. The statement order of the writes matters only if two of them overlap, and
+	// `header_layout_ok` (tiles) refuses overlapping or duplicated slots; reads never interfere. So a reordering of the
+	// statements of either function gives the same tables.
+	byOffset := func(ss []slot) {
+		sort.SliceStable(ss, func(i, j int) bool {
+			if ss[i].lo != ss[j].lo {
+				return ss[i].lo < ss[j].lo
+			}
+			return ss[i].hi < ss[j].hi
+		})
+	}
+	byOffset(ms)
+	byOffset(ps)
 	// field constructors: in order of first appearance (marshal first, then parse)
 	var fields []string
 	seen := map[string]bool{}
@@ -457,8 +495,8 @@ func cmdFrameLayout(args []string) error {
 		}
 		fmt.Fprintf(&b, "/-- %s -/\ndef %s : List Slot := [%s]\n\n", doc, name, strings.Join(parts, ", "))
 	}
-	emit("marshalLayout", "writes of `marshalHeader`, in statement order", ms)
-	emit("parseLayout", "reads of `parseHeader`, in statement order; destination = accessor that returns the constructor field", ps)
+	emit("marshalLayout", "writes of `marshalHeader`, by offset (statement order is irrelevant for non-overlapping slots: `tiles`)", ms)
+	emit("parseLayout", "reads of `parseHeader`, by offset; destination = accessor that returns the constructor field", ps)
 	b.WriteString("end Aergo.Gen.Frame\n")
 	return os.WriteFile(*out, []byte(b.String()), 0o644)
 }
